@@ -1,8 +1,8 @@
 (* Engine "Push": demux_var.rs over a list of scripted recorders.
-   [demux_once_push]: after the finalize-once fix -- FULL statement (strict protocol).
-   [demux_push]: the code before the fix -- weak protocol only (see PTwo.v for the reason). *)
+   [demux_push]: after the finalize-once fix -- FULL statement (strict protocol).
+   [demux_old_push]: the code before the fix -- weak protocol only (see PTwo.v for the reason). *)
 From Coq Require Import List NArith Bool Arith Lia.
-From HV Require Import Push.Model Push.PBase Push.PTwo Push.PTwoOnce Push.Run.
+From HV Require Import Push.Model Push.Historic Push.PBase Push.PTwo Push.PTwoOnce Push.Run.
 Import ListNotations.
 
 Set Implicit Arguments.
@@ -46,6 +46,33 @@ Section DriveInvP.
         * exact (IH (a :: rest) xs false s1 (DRdy false :: tr) FA H1).
   Qed.
 End DriveInvP.
+
+Section DriveTermP.
+  Context {A : Type} (p : push A).
+  Variable Inv : phase A -> St p -> Prop.
+  Variable Pa : A -> Prop.
+  Variable mu : St p -> nat.
+  Hypothesis Hr : ready_ok p Inv.
+  Hypothesis Hs : forall xs a s, Pa a ->
+      Inv (Run xs true) s -> exists s', send p a s = Some s' /\ Inv (Run (xs ++ [a]) false) s'.
+  Hypothesis Mr : forall s, mu (snd (ready p s)) + (if fst (ready p s) then 0 else 1) <= mu s.
+  Hypothesis Ms : forall a s s', send p a s = Some s' -> mu s' <= mu s.
+  Hypothesis Mf : forall s, mu (snd (fin p s)) + (if fst (fin p s) then 0 else 1) <= mu s.
+
+  Theorem drive_term_P : forall fuel items xs b s tr,
+      Forall Pa items -> Inv (Run xs b) s -> mu s + length items < fuel ->
+      fst (fst (drive p fuel items s tr)) = Finished.
+  Proof.
+    induction fuel as [|k IH]; intros items xs b s tr FA H L; [lia|].
+    destruct items as [|a rest].
+    - cbn [drive]. apply (@drive_fin_term _ p mu Mf). cbn in L. lia.
+    - cbn [drive]. pose proof (Hr H) as H1. pose proof (Mr s) as M.
+      destruct (ready p s) as [r s1]. cbn in H1, M. inversion FA as [|? ? Pa0 FA']. subst. destruct r.
+      + destruct (@Hs xs a s1 Pa0 H1) as [s2 [E H2]]. rewrite E. pose proof (Ms _ _ E).
+        apply IH with (xs := xs ++ [a]) (b := false); auto. cbn in L. lia.
+      + apply IH with (xs := xs) (b := false); auto. cbn in L |- *. lia.
+  Qed.
+End DriveTermP.
 
 (* ------------------------------------------------------------------ reference *)
 
@@ -113,11 +140,11 @@ Section DemuxOnce.
 
   Lemma ls_fin : forall l k xs fl,
       PreS k xs fl l ->
-      match var_fin_once R fl l with
+      match var_fin R fl l with
       | (b, (fl', l')) => InvLS k (Fing xs) fl' l' /\ (b = true -> InvLS k (Fini xs) fl' l')
       end.
   Proof.
-    induction l as [|s r IH]; intros k xs fl H; cbn [var_fin_once]; [cbn; auto|].
+    induction l as [|s r IH]; intros k xs fl H; cbn [var_fin]; [cbn; auto|].
     assert (G0 : InvS (demux_ref k) (Fing xs) (hd false fl) (lg s) \/
                  exists b, InvS (demux_ref k) (Run xs b) (hd false fl) (lg s)).
     { destruct H as [[H _]|[b [H _]]]; [left|right; exists b]; exact H. }
@@ -125,13 +152,13 @@ Section DemuxOnce.
     { destruct H as [[_ H]|[b [_ H]]]; [left|right; exists b]; exact H. }
     destruct (@invs_fin _ _ _ _ _ _ G0) as [F0 D0]. specialize (IH (S k) xs (tl fl) G1).
     unfold fin_once in *. cbn [R rec_push fin].
-    destruct (var_fin_once R (tl fl) r) as [b [fl' r']]. destruct IH as [F1 D1].
+    destruct (var_fin R (tl fl) r) as [b [fl' r']]. destruct IH as [F1 D1].
     destruct (hd false fl); [|destruct (rec_fin s) as [a s']]; cbn [fst snd] in *;
       cbn [InvLS hd tl]; (split; [split; auto|]);
         intro E; apply andb_prop in E; destruct E as [Ea Eb]; split; auto.
   Qed.
 
-  Let p := demux_once_push R.
+  Let p := demux_push R.
   Definition InvDS (ph : phase (nat * A)) (s : list bool * list (ds A)) : Prop :=
     InvLS 0 ph (fst s) (snd s).
   Definition in_range (n : nat) (ia : nat * A) : Prop := fst ia < n.
@@ -148,10 +175,10 @@ Section DemuxOnce.
     - inversion E; subst; reflexivity.
     - destruct (var_send R j a r) eqn:E1; inversion E; subst. cbn. f_equal. eapply IH; eauto.
   Qed.
-  Lemma var_fin_once_len : forall (l : list (ds A)) fl, length (snd (snd (var_fin_once R fl l))) = length l.
+  Lemma var_fin_len : forall (l : list (ds A)) fl, length (snd (snd (var_fin R fl l))) = length l.
   Proof.
-    induction l as [|s r IH]; intros fl; cbn [var_fin_once]; auto.
-    specialize (IH (tl fl)). destruct (var_fin_once R (tl fl) r) as [b0 [fl' r']].
+    induction l as [|s r IH]; intros fl; cbn [var_fin]; auto.
+    specialize (IH (tl fl)). destruct (var_fin R (tl fl) r) as [b0 [fl' r']].
     cbn [R rec_push fin]. destruct (hd false fl); [|destruct (rec_fin s) as [a0 s0]];
       cbn [snd length] in *; f_equal; exact IH.
   Qed.
@@ -162,7 +189,7 @@ Section DemuxOnce.
 
   Lemma dmo_ready : forall n, ready_ok p (InvN n).
   Proof.
-    intros n xs b [fl l] [Ln H]. unfold InvN, InvDS, p in *. cbn [ready demux_once_push fst snd] in *.
+    intros n xs b [fl l] [Ln H]. unfold InvN, InvDS, p in *. cbn [ready demux_push fst snd] in *.
     pose proof (var_ready_len l) as L1. pose proof (@ls_ready l 0 xs b (fst (var_ready R l)) fl H (fun e => e)) as Q.
     destruct (var_ready R l) as [r l']. cbn [fst snd] in *. split; [exact (eq_trans L1 Ln)|exact Q].
   Qed.
@@ -171,7 +198,7 @@ Section DemuxOnce.
       InvN n (Run xs true) s -> exists s', send p a s = Some s' /\ InvN n (Run (xs ++ [a]) false) s'.
   Proof.
     intros n xs [i a] [fl l] Ra [Ln H]. unfold InvN, InvDS, p, in_range in *.
-    cbn [send demux_once_push fst snd] in *.
+    cbn [send demux_push fst snd] in *.
     destruct (@ls_send l 0 i a xs fl H) as [l' [E I]]; [lia|]. rewrite E.
     eexists. split; [reflexivity|]. cbn [fst snd]. split; auto.
     exact (eq_trans (var_send_len _ _ _ E) Ln).
@@ -179,11 +206,11 @@ Section DemuxOnce.
 
   Lemma dmo_fin : forall n, fin_ok p (InvN n).
   Proof.
-    intros n xs [fl l] H. unfold InvN, InvDS, p in *. cbn [fin demux_once_push fst snd] in *.
+    intros n xs [fl l] H. unfold InvN, InvDS, p in *. cbn [fin demux_push fst snd] in *.
     assert (Ln : length l = n) by (destruct H as [[L _]|[b [L _]]]; auto).
     assert (G : PreS 0 xs fl l) by (destruct H as [[_ H]|[b [_ H]]]; [left|right; exists b]; exact H).
-    pose proof (ls_fin G) as Q. pose proof (var_fin_once_len l fl) as L1.
-    destruct (var_fin_once R fl l) as [b [fl' l']]. cbn [fst snd] in *. destruct Q as [F D].
+    pose proof (ls_fin G) as Q. pose proof (var_fin_len l fl) as L1.
+    destruct (var_fin R fl l) as [b [fl' l']]. cbn [fst snd] in *. destruct Q as [F D].
     destruct b; (split; [exact (eq_trans L1 Ln)|auto]).
   Qed.
 
@@ -233,6 +260,54 @@ Section DemuxOnce.
     - destruct D as [ph [rest [[L D] [E N]]]]. split; [congruence|]. split; auto.
       eapply ls_spec; eauto. congruence.
     - contradiction.
+  Qed.
+
+  Fixpoint mu_l (l : list (ds A)) : nat := match l with [] => 0 | s :: r => mu_ds s + mu_l r end.
+
+  Lemma var_ready_mu : forall l : list (ds A),
+      mu_l (snd (var_ready R l)) + (if fst (var_ready R l) then 0 else 1) <= mu_l l.
+  Proof.
+    induction l as [|s r IH]; cbn [var_ready mu_l fst snd]; [lia|].
+    cbn [R rec_push ready]. pose proof (rec_ready_mu s) as M.
+    destruct (rec_ready s) as [a s']. destruct (var_ready R r) as [b r']. cbn [fst snd mu_l] in *.
+    destruct a, b; cbn [andb] in *; lia.
+  Qed.
+
+  Lemma var_send_mu : forall (l : list (ds A)) idx a l', var_send R idx a l = Some l' -> mu_l l' <= mu_l l.
+  Proof.
+    induction l as [|s r IH]; intros idx a l' E; destruct idx as [|j]; cbn in E; try discriminate.
+    - inversion E; subst. cbn [mu_l]. unfold mu_ds. cbn [rs fs]. lia.
+    - destruct (var_send R j a r) eqn:E1; inversion E; subst. cbn [mu_l]. specialize (IH _ _ _ E1). lia.
+  Qed.
+
+  Lemma var_fin_mu : forall (l : list (ds A)) fl,
+      mu_l (snd (snd (var_fin R fl l))) + (if fst (var_fin R fl l) then 0 else 1) <= mu_l l.
+  Proof.
+    induction l as [|s r IH]; intros fl; cbn [var_fin mu_l fst snd]; [lia|].
+    specialize (IH (tl fl)). destruct (var_fin R (tl fl) r) as [b0 [fl' r']].
+    cbn [R rec_push fin]. pose proof (rec_fin_mu s) as M.
+    destruct (hd false fl); [|destruct (rec_fin s) as [a0 s0]]; cbn [fst snd mu_l] in *;
+      try destruct a0; destruct b0; cbn [andb] in *; lia.
+  Qed.
+
+  Theorem demux_once_terminates : forall fuel items (scripts : list (list bool * list bool)),
+      Forall (in_range (length scripts)) items ->
+      mu_l (map (@ds0 A) scripts) + length items < fuel ->
+      fst (fst (drive p fuel items ([], map (@ds0 A) scripts) [])) = Finished.
+  Proof.
+    intros fuel items scripts FA L.
+    apply (@drive_term_P _ p (InvN (length scripts)) (in_range (length scripts)) (fun s => mu_l (snd s))
+                         (@dmo_ready (length scripts))
+                         (fun xs a s Pa I => @dmo_send (length scripts) xs a s Pa I))
+      with (xs := []) (b := false); auto.
+    - intros [fl l]. cbn [ready p demux_push fst snd]. pose proof (var_ready_mu l) as M.
+      destruct (var_ready R l) as [r l']. cbn [fst snd] in *. exact M.
+    - intros [i a] [fl l] s'. cbn [send p demux_push fst snd].
+      destruct (var_send R i a l) as [l'|] eqn:E; [|discriminate]. intro X. inversion X. subst.
+      cbn [snd]. eapply var_send_mu; eauto.
+    - intros [fl l]. cbn [fin p demux_push fst snd]. pose proof (var_fin_mu l fl) as M.
+      destruct (var_fin R fl l) as [b [fl' l']]. cbn [fst snd] in *. exact M.
+    - split; [cbn; apply map_length|apply ls_start].
   Qed.
 End DemuxOnce.
 
@@ -292,28 +367,28 @@ Section DemuxOld.
 
   Lemma lw_fin : forall l k xs,
       PreW k xs l ->
-      match var_fin R l with
+      match var_fin_old R l with
       | (b, l') => InvLW k (Fing xs) l' /\ (b = true -> InvLW k (Fini xs) l')
       end.
   Proof.
-    induction l as [|s r IH]; intros k xs H; cbn [var_fin]; [cbn; auto|].
+    induction l as [|s r IH]; intros k xs H; cbn [var_fin_old]; [cbn; auto|].
     assert (G0 : InvD (demux_ref k) (Fing xs) (lg s) \/ exists b, InvD (demux_ref k) (Run xs b) (lg s)).
     { destruct H as [[H _]|[b [H _]]]; [left|right; exists b]; exact H. }
     assert (G1 : PreW (S k) xs r).
     { destruct H as [[_ H]|[b [_ H]]]; [left|right; exists b]; exact H. }
     destruct (@invd_fin _ _ _ _ _ G0) as [F0 D0]. specialize (IH (S k) xs G1).
     cbn [R rec_push fin].
-    destruct (var_fin R r) as [b r']. destruct IH as [F1 D1].
+    destruct (var_fin_old R r) as [b r']. destruct IH as [F1 D1].
     destruct (rec_fin s) as [a s']. cbn [fst snd] in *. cbn [InvLW]. split; [split; auto|].
     intro E. apply andb_prop in E. destruct E as [Ea Eb]. split; auto.
   Qed.
 
-  Let p := demux_push R.
+  Let p := demux_old_push R.
 
-  Lemma var_fin_len : forall (l : list (ds A)), length (snd (var_fin R l)) = length l.
+  Lemma var_fin_old_len : forall (l : list (ds A)), length (snd (var_fin_old R l)) = length l.
   Proof.
-    induction l as [|s r IH]; cbn [var_fin]; auto.
-    destruct (var_fin R r) as [b0 r']. cbn [R rec_push fin]. destruct (rec_fin s) as [a0 s0].
+    induction l as [|s r IH]; cbn [var_fin_old]; auto.
+    destruct (var_fin_old R r) as [b0 r']. cbn [R rec_push fin]. destruct (rec_fin s) as [a0 s0].
     cbn [snd length] in *. f_equal. exact IH.
   Qed.
 
@@ -341,9 +416,9 @@ Section DemuxOld.
     intros n xs l H.
     assert (Ln : length l = n) by (destruct H as [[L _]|[b [L _]]]; auto).
     assert (G : PreW 0 xs l) by (destruct H as [[_ H]|[b [_ H]]]; [left|right; exists b]; exact H).
-    pose proof (lw_fin G) as Q. pose proof (var_fin_len l) as L1.
-    change (fin p l) with (var_fin R l).
-    destruct (var_fin R l) as [b l']. cbn [fst snd] in *. destruct Q as [F D].
+    pose proof (lw_fin G) as Q. pose proof (var_fin_old_len l) as L1.
+    change (fin p l) with (var_fin_old R l).
+    destruct (var_fin_old R l) as [b l']. cbn [fst snd] in *. destruct Q as [F D].
     destruct b; (split; [exact (eq_trans L1 Ln)|auto]).
   Qed.
 
@@ -395,5 +470,5 @@ End DemuxOld.
 
 (* out of scope of the property: an index with no downstream panics (PushVariadic for ()) *)
 Lemma demux_out_of_range_panics :
-  fst (fst (drive (demux_push (rec_push N)) 5 [(1, 7%N)] [mkds [] [] []] [])) = Panicked.
+  fst (fst (drive (demux_old_push (rec_push N)) 5 [(1, 7%N)] [mkds [] [] []] [])) = Panicked.
 Proof. vm_compute. reflexivity. Qed.
